@@ -121,15 +121,23 @@ ObservedAgreement ==
   \A f, g \in {x \in fin : x.s = ts} : f.h = g.h
 ObservedNoFinalAndSkip ==
   \A f \in {x \in fin : x.s = ts} : ~f.implicit => (~SkipCert(ts) /\ \A k \in skipped : k.s # ts)
-\* every reported block at slot ts is on one chain with every other reported block
+\* every reported block at slot ts is on one chain with the reported blocks of the nearest
+\* lower and the nearest higher reported slot (the relation is transitive along the trace)
+RECURSIVE DescendsFrom(_, _, _)
+DescendsFrom(hid, lid, fuel) ==     \* TRUE / FALSE, or "unknown" when the chain is not known that far
+  IF hid = lid THEN "yes"
+  ELSE IF hid.s <= lid.s \/ fuel = 0 THEN "no"
+  ELSE IF BlockOf(hid) = {} THEN "unknown"
+  ELSE DescendsFrom(ParentId(CHOOSE b \in BlockOf(hid) : TRUE), lid, fuel - 1)
 OnChain(lo, hi) ==     \* lo.s < hi.s
-  LET hid == [s |-> hi.s, h |-> hi.h]  lid == [s |-> lo.s, h |-> lo.h] IN
-  \/ lid \in Ancestors(hid)
-  \/ \E a \in Ancestors(hid) \cup {hid} : BlockOf(a) = {} /\ a.s > lo.s
+  DescendsFrom([s |-> hi.s, h |-> hi.h], [s |-> lo.s, h |-> lo.h], hi.s - lo.s + 1) # "no"
 ObservedChain ==
-  \A f \in {x \in fin : x.s = ts /\ x.s > 0} : \A g \in fin :
-    /\ (g.s > f.s) => OnChain(f, g)
-    /\ (g.s < f.s /\ g.s > 0) => OnChain(g, f)
+  LET here == {x \in fin : x.s = ts /\ x.s > 0}
+      lowS == {x.s : x \in {y \in fin : y.s < ts /\ y.s > 0}}
+      highS == {x.s : x \in {y \in fin : y.s > ts}}
+      lo == IF lowS = {} THEN {} ELSE {x \in fin : x.s = CHOOSE m \in lowS : \A k \in lowS : k <= m}
+      hi == IF highS = {} THEN {} ELSE {x \in fin : x.s = CHOOSE m \in highS : \A k \in highS : k >= m}
+  IN \A f \in here : (\A g \in lo : OnChain(g, f)) /\ (\A g \in hi : OnChain(f, g))
 
 \* acceptance: every event consumed
 TraceAccepted ==
